@@ -7,28 +7,28 @@ props = [json.loads(l) for l in open(os.path.join(ROOT, 'properties.jsonl'))]
 # id -> (technique, level text, level note, design ref)
 CHECKS = {
  'C20': ("Errors.tla WF predicate evaluated by Errors_Trace on every error provoked from every entry point; path codec identity model-checked (Errors_MC) and all its 5461 paths replayed through json.Marshal of an error and ast.Path.UnmarshalJSON under four name alphabets",
-         "4,000 (quick) / 80,000 (thorough) errors from the lexer, both parsers (named sources), limited entry points, LoadSchema over several uniquely named files (after an early load that extends built-ins), Validate under default and random rule subsets, VariableValues with defective values and hostile map keys; coverage counted by distinct message template (about 230 in the quick tier).",
+         "4,000 (quick) / 250,000 (thorough) errors from the lexer, both parsers (named sources), limited entry points, LoadSchema over several uniquely named files (after an early load that extends built-ins), Validate under default and random rule subsets, VariableValues with defective values and hostile map keys; coverage counted by distinct message template (about 230 in the quick tier).",
          "JSON shape is checked on json.Marshal of the *gqlerror.Error; message wording is not compared against an oracle; every error of a call whose sources are all named must carry one of those names.", "4/C20"),
 
  'C12': ("Printer.tla: the formatter is specified through its inverse, the SPECIFICATION's own parser (Lexer.tla + QueryGrammar.tla + Tree.tla); Printer_Trace requires SpecParse(format(d)) = d, the library's re-parse to agree, and format(parse(format(d))) = format(d); plus every sentence of the QueryGrammar_MC state graph formatted and re-read",
          "Every derivable sentence of the bounded grammar graph and a sentence through every transition of the larger graph, each under a rotating option set; 60 (quick) / 1,500 (thorough) generated document trees (strings with quotes, backslashes, control characters, non-BMP and non-printable runes, triple quotes, odd indentation; directives on every location incl. variable definitions; fragment variables; comments) x all 16 option sets (4 indents x comments x compacted).",
          "Comments are not part of the compared document; the padding state machine itself is not modelled (the formatter is specified by what its output must denote).", "4/C12"),
  'C13': ("Printer.tla with the type-system parser of the specification (SchemaGrammar.tla): Printer_Trace requires SpecParse(format(doc)) = doc (descriptions dropped when switched off; all schema definitions / extensions merged as the formatter merges them), the library's re-parse to agree, fixpoint; for loaded schemas the canonical projection of LoadSchema(FormatSchema(s)) must equal that of s",
-         "50 (quick) / 1,200 (thorough) grammar-directed type-system documents (every definition kind, extensions, constant directives and defaults, descriptions from a pool of 29 hostile texts: leading / trailing blank space and newlines, common indentation, CR, control characters, triple quotes, trailing backslash or quote) x 12 option sets (3 indents x comments x without-description); 40 / 800 loaded schemas from the typed generator (custom roots, default-named non-roots, schema description and directives, repeatable directives, described arguments, hostile descriptions) plus 12 hand-written corner cases x 4 / 12 option sets.",
+         "50 (quick) / 3,000 (thorough) grammar-directed type-system documents (every definition kind, extensions, constant directives and defaults, descriptions from a pool of 29 hostile texts: leading / trailing blank space and newlines, common indentation, CR, control characters, triple quotes, trailing backslash or quote) x 12 option sets (3 indents x comments x without-description); 40 / 2,500 loaded schemas from the typed generator (custom roots, default-named non-roots, schema description and directives, repeatable directives, described arguments, hostile descriptions) plus 19 hand-written corner cases (no query root, user-defined prelude directives) x 4 / 12 option sets.",
          "Two recorded known findings pinned by golden files (argument separator under WithoutDescription; schema description not printed by FormatSchema). Default values and directive arguments of loaded schemas are compared by printed literal.", "4/C13"),
  'C11': ("Shared.tla (read-only operations on one schema; ReadOnly and SameAsAlone invariants over all interleavings of 3 goroutines, faulty writer as non-vacuity witness) + Shared_Trace on real runs: results equal the call run alone on a pristine schema, canonical deep snapshots of the schema graph equal before/after, no race-detector report; forced interleavings through hook H3",
          "Per run: two fixed schemas whose tables are not in alphabetical order with every hand-written document (history + 4 goroutines), then 2/8 schemas x (4/12 single-threaded histories of 30/75 calls with a snapshot around every call and a re-rendering of every returned value after the last call; goroutine runs with 2..8 / 2..32 goroutines in a child process built with -race; all 20 / 70 interleavings of two validations at walkSelection granularity). Calls are random mixes of parse+validate (valid, faulty, type-blind), variable coercion, argument resolution and schema formatting.",
          "Data-race freedom is decided by the Go race detector on the schedules that occur; the snapshot is a reflective walk of everything reachable from *ast.Schema (including spare slice capacity).", "4/C11"),
 
  'C02': ("FragTraversal.tla (visits under the Global / OnPath memo disciplines, linearity model-checked on all 3-fragment graphs) + Total2_Trace: every LoadSchema / Validate call runs in a crash-isolated child process; hook-H2 recursion step counters per site are checked against polynomial bounds in the document size",
-         "1,000 (quick) / 17,000 (thorough) cases: LoadSchema on generated valid / faulty / hand-written / grammar-directed type-blind SDL; Validate on typed valid, fault-injected and type-blind documents; 24 adversarial document families (fragment fan-out under introspection, fields, top level, subscriptions; cycles through fields; fragments spreading each other while overlapping; exclusive-then-shared comparisons; deep aliases; wide same-name selection sets; deep equal / differing / reordered object and list arguments, deep default values) and 12 adversarial type-system families (interface chains and cycles reached from a type that sorts first, input cycles through non-null fields and defaults, deep list types, wide unions, directive cycles, extension chains, extensions of missing types) at 4 / 6 sizes. A crash, fatal stack exhaustion or 20 s silence is attributed to its input; a hard budget of 30 million steps per site turns exponential blow-up into a deterministic verdict.",
+         "1,100 (quick) / 60,000 (thorough) cases: LoadSchema on generated valid / faulty / hand-written / grammar-directed type-blind SDL; Validate on typed valid, fault-injected and type-blind documents; 24 adversarial document families (fragment fan-out under introspection, fields, top level, subscriptions; cycles through fields; fragments spreading each other while overlapping; exclusive-then-shared comparisons; deep aliases; wide same-name selection sets; deep equal / differing / reordered object and list arguments, deep default values) and 12 adversarial type-system families (interface chains and cycles reached from a type that sorts first, input cycles through non-null fields and defaults, deep list types, wide unions, directive cycles, extension chains, extensions of missing types) at 4 / 6 sizes. A crash, fatal stack exhaustion or 20 s silence is attributed to its input; a hard budget of 30 million steps per site turns exponential blow-up into a deterministic verdict.",
          "Termination / no-panic are observations of the Go runtime; time is bounded through step counters, not seconds; polynomial bounds are generous (degree 4 for the merge rule).", "4/C02"),
 
  'C09': ("Links_Trace over the typed walk (Events) of Rules.tla: every link of every node of the validated real AST, recorded with pointer identity against the schema's own definitions, must be a fact the walk implies, and every node the walk visits must carry its fact",
-         "360 (quick) / 12,000 (thorough) generated valid documents on generated schemas, the valid ones among the small-scope documents of C08 (about 800 / 12,000), plus hand-written ones (fields reached only through fragments, __typename on unions, introspection fields, values nested in lists inside input objects inside lists, list-coerced single values, variables in every position incl. fragments shared by several operations, directives on every executable location).",
+         "360 (quick) / 12,000 (thorough) generated valid documents on generated schemas, the valid ones among the small-scope documents of C08 (about 800 / 12,000), plus hand-written ones; every third document also validated on a fresh parse with a rule subset (none, no value observers, no directive observers) and linked again (fields reached only through fragments, __typename on unions, introspection fields, values nested in lists inside input objects inside lists, list-coerced single values, variables in every position incl. fragments shared by several operations, directives on every executable location).",
          "The inline-fragment link is a recorded known finding (links the enclosing type). Node identity is assigned by the projection.", "4/C09"),
  'C10': ("Determinism.tla function law (model-checked) and Determinism_Trace: the complete error list (order, rule, message incl. suggestions, locations, file) of every case observed on fresh parses, on re-validation of the same tree, and in 3/8 fresh worker processes must be identical; same for schema-load errors",
-         "420 (quick) / 3,600 (thorough) cases: generated valid / faulty / misspelt (several equidistant candidates) / type-blind documents, hand documents on a schema with near-identical names (Item / ITEM, Doa..Doe, RED/REB/REC), faulty schemas.",
+         "450 (quick) / 12,000 (thorough) cases: generated valid / faulty / misspelt (several equidistant candidates) / type-blind documents, hand documents on a schema with near-identical names (Item / ITEM, Doa..Doe, RED/REB/REC), faulty schemas.",
          "Map-order effects are sampled over K processes, not enumerated.", "4/C10"),
  'C18': ("Compose.tla CompositionLaw model-checked on abstract observers (with an interfering observer as non-vacuity witness); Compose_Trace checks on real runs that each rule set's errors are the multiset union of its members' singleton errors, tags, default = explicit full list, and the without-suggestions variants",
          "250 (quick) / 2,600 (thorough) (schema, document) pairs x (27 singletons + full list + default + 10/50 random subsets in random order on fresh parses against freshly loaded schemas + 3 subsets in sequence on one shared tree + 4 variants).",
@@ -42,17 +42,17 @@ CHECKS = {
          "Generated valid-by-construction type systems (interfaces implementing interfaces, unions, oneOf inputs, repeatable directives, defaults, custom scalars, nested list/non-null, directives on every type-system location, extensions and extension-only types, custom roots) must load and yield exactly the specification's types, directives, possible-type / implements relations and roots with introspection fields and no dangling reference; the same with one injected violation from a catalogue of 21 fault operators covering every enforced rule must be rejected; 70 hand-written corner cases; small scope: every combination of at most 3 / 4 blocks of a 30-block pool of definitions and extensions (4,525 / 31,930 type systems). 4,900 (quick) / 38,000 (thorough) documents.",
          "Trusts TypeSystem.tla as the reading of the rules the statement lists; the abstract document is the projection of parser.ParseSchemas' output (checked by C06); the small-scope enumeration is over a fixed pool of blocks, not over all type systems of a size.", "4/C07"),
  'C17': ("TypeSystem.tla rules are predicates over the SET of definitions (order-free by construction); TypeSystem_Trace requires LoadSchema's outcome for every permutation x partition into files to equal the specification's outcome for the set, and the error file to hold an involved definition",
-         "100 (quick) / 1,000 (thorough) generated schemas, valid and single-fault, each loaded in base order and under 10 / 50 random permutations of their top-level definitions crossed with random partitions into 1-5 files (extension before base, interface after implementer included).",
+         "100 (quick) / 1,000 (thorough) generated schemas, valid and single-fault, and 8 hand-written definition lists (extension-only types referred to by earlier extensions, roots after the schema definition), each loaded in base order and under 10 / 50 random permutations of their top-level definitions crossed with random partitions into 1-5 files and with the built-in prelude first, last or in the middle (extension before base, interface after implementer included); the set of types marked built-in is part of the comparison.",
          "The involved-definition set for the error-file clause comes from the generator's fault operator and is only checked when the specification finds exactly one violated rule.", "4/C17"),
  'C14': ("Coerce.tla (CoerceVariableValues + input coercion over JSON-like values) with Sound / Idempotent / Identity / Complete theorems model-checked; every case of the bounded universe printed by TLC (terminal-state print) replayed into validate + validator.VariableValues in five Go-kind variants; random deeper cases re-computed by Coerce_Trace",
-         "All types of list depth <= 1 (quick) / 2 (thorough) with every non-null pattern over Int, String, E, In, Any (+ Float, Boolean, ID), conforming values and values with a defect at each depth, defaults valid only through list coercion: 3,000 / ~10^5 cases x 5 Go representations; 3,000 / 60,000 random type-directed cases to list depth 3.",
+         "All types of list depth <= 1 (quick) / 2 (thorough) with every non-null pattern over Int, String, E, In, Any (+ Float, Boolean, ID), conforming values and values with a defect at each depth, defaults valid only through list coercion: 3,000 / ~10^5 cases x 5 Go representations; a second phase in the same process on a second schema with the same type names and enum E { RED } (1,800 cases, the specification evaluated for that schema); 3,000 / 200,000 random type-directed cases to list depth 3.",
          "The scalar kind table is the library's documented one (DESIGN appendix B); __typename keys excluded.", "4/C14"),
  'C15': ("ArgMap.tla precedence machine (literal > variable > default, explicit null is a value) with Precedence and VarLaw invariants model-checked; every row of the decision table printed by TLC replayed into Field.ArgumentMap and Directive.ArgumentMap after real validation and variable coercion",
-         "387 rows: two variables (with / without default) x absent / null / supplied, one of nine arguments written as nothing, literal (nested lists / input objects with variables, custom-scalar literals of every kind, numeric literals beyond int64 / float64) or variable; whole argument map compared entry by entry, panics reported.",
+         "1,269 rows: three variables ($p: Int, $q: Int = 3, $n: Int = null) x absent / null / supplied, one of nine arguments written as nothing, literal (nested lists / input objects with variables, custom-scalar literals of every kind, numeric literals beyond int64 / float64) or variable; whole argument map compared entry by entry, panics reported; all rows of one document text are resolved on ONE validated tree; ArgMapOps_MC: two operations sharing a fragment (one declaring a default), 24 rows x both orders of the operations.",
          "Absent variable nested in a literal contributes null; generated-document coverage (C->M) of argument maps is not built yet.", "4/C15"),
 
  'C01': ("TLA+ lexer/budget specifications + Total_Trace.tla validating, per input, outcomes, error positions (InsideInput over the spec's line table) and hook-H1 work counters recorded from the real lexer loop and six parser entry points run in a crash-isolated child process",
-         "Every byte string up to 4 (quick) / 5 (thorough) bytes over a 17-byte adversarial alphabet, alone and behind ten prefixes that place the cursor inside escapes, block strings, comments, numbers and argument lists; seeded byte-level mutations of the repository's own test inputs and of generated documents; 22 size-parametrised families to 16 KiB / 64 KiB. A crash, fatal error or hang of the child is attributed to its input and reported; everything that returns is validated by TLC: nil error implies a document, syntax errors carry a line/column inside the input, lexer calls <= next() calls + 1 <= tokens + 2.",
+         "Every byte string up to 4 (quick) / 5 (thorough) bytes over a 17-byte adversarial alphabet, alone and behind ten prefixes that place the cursor inside escapes, block strings, comments, numbers and argument lists; seeded byte-level mutations of the repository's own test inputs and of generated documents; 22 size-parametrised families to 16 KiB / 64 KiB. A crash, fatal error or hang of the child is attributed to its input and reported; everything that returns is validated by TLC: nil error implies a document, syntax errors carry a line/column inside the input, lexer calls within a bounded look-ahead of the tokens consumed.",
          "Termination / no-panic is an observation of the Go runtime (child process + inactivity watchdog), not a TLC theorem; the time bound is stated on deterministic hook counters. Lexer.tla Progress/Bounds invariants are model-checked in C03.", "4/C01"),
  'C04': ("Lexer.tla carries line/lineStart through ignored text and block strings; TokenPos invariant (incremental = closed-form LineOf/ColOf) model-checked; every token's (start, line, column) compared on all graph paths, Lexer_Cases and Lexer_Trace",
          "Same exhaustive input spaces as C03, compared on start offset, line and column of every token (incl. EOF) against the transducer, whose positions are themselves checked by TLC against the closed-form definition (1 + line terminators before the offset; distance from line start + 1) on every string up to length 3/4. Positions_Trace: every *ast.Position reachable from 600 / 7,700 parsed executable and type-system documents (hostile layout: CR / CRLF / LF mixes, BOMs, multi-byte comments, multi-line block strings) and schemas loaded from 1-5 files (prelude positions included), and every location of the syntax, schema and validation errors of their mutations, must be the (offset, line, column) of a token start of the source it names, with line / column the closed form of the offset.",
@@ -61,7 +61,7 @@ CHECKS = {
          "Exhaustive within bounds: every token-class sequence up to 6 (quick) / 7 (thorough) tokens that is derivable, a viable prefix, or a viable prefix plus one inadmissible class; one shortest sentence through every transition of the 12/16-token graph plus spliced near-miss sentences; 2,000 / 30,000 generated and mutated documents whose verdict and tree are decided by the TLA+ automaton.",
          "Trusts QueryGrammar.tla as the reading of the grammar and the AST projection; lexemes per class are representatives.", "4/C05"),
  'C06': ("SchemaGrammar.tla: LL(1) pushdown automaton for the type-system grammar with tree events; same machinery as C05 against parser.ParseSchema, plus BuiltIn flag propagation",
-         "Exhaustive within bounds (all paths up to 5/6 tokens over 34 classes, transition and near-miss covers at 11/14 tokens), plus generated type-system trees and single-token mutations validated by SchemaGrammar_Trace.",
+         "Exhaustive within bounds (all paths up to 5/6 tokens over 34 classes, transition and near-miss covers at 11/14 tokens), plus generated type-system trees, single-token mutations and hand-written texts with lists nested at every position validated by SchemaGrammar_Trace; BuiltIn_Trace: 60 / 1,500 lists of 2-4 sources in one call with built-in sources at any position (merged document = concatenation, BuiltIn flag of every definition = flag of the source its position names).",
          "Trusts SchemaGrammar.tla and the SchemaDocument projection; empty description equals none; AST lists compared in fixed order.", "4/C06"),
  'C16': ("TokenLimit.tla budget machine (peek/next/comment-group) model-checked for Lookahead, CountOnce, WorkBound, Exact, Sticky; hook-H1 event streams of real parses validated by TokenLimit_Trace against the machine and against the specification's own tokenisation",
          "Every generated document x every limit 0..tokens+2 x every limited entry point: the recorded stream of lexer calls / counter increments / limit hits must be a behaviour of the budget machine, the outcome must be exact (ok iff unlimited ok and tokens <= limit), the tree identical, and no lexer call may follow the limit error; lists of three sources in one call (the limit is per source: ok iff every source parses and fits) at limits around the largest source and the sum; 1 MiB (quick) / 8 MiB (thorough) nesting, token-flood and comment-flood families under limits 1..200000 run in a child process with lexer calls <= limit + 1.",
